@@ -114,8 +114,14 @@ TRoundTrip == /\ IsEvent("RoundTrip") /\ phase = "idle"
                      /\ (Ev.f = "tls13_rt" => (Ev.rtype = Ev.type /\ Ev.midlen = Ev.n + 1 + Ev.padlen + 16))
                      /\ (Ev.f = "tls_cbc_rt" => (Ev.midlen % 16 = 0 /\ Ev.midlen >= 16 + Ev.n + 32 + 1 /\ Ev.midlen <= 16 + Ev.n + 32 + 256)))
               /\ UNCHANGED <<phase, par, fed, outs>>
+(* the same through the command line tools (tools/clilib.py): a file is protected by `gmssl <tool> -encrypt`, the result compared with the reference      *)
+(* construction (refsame), unprotected by `-decrypt` and compared; CliTamper: a modified protected file handed to an authenticated tool is refused       *)
+TCliRoundTrip == /\ IsEvent("CliRoundTrip") /\ phase = "idle"
+                 /\ Chk(Ev.rc1 = 1 /\ Ev.rc2 = 1 /\ Ev.same = 1 /\ Ev.outlen = Ev.n /\ Ev.refsame = 1 /\ Ev.midlen = Ev.expectmid)
+                 /\ UNCHANGED <<phase, par, fed, outs>>
+TCliTamper == /\ IsEvent("CliTamper") /\ phase = "idle" /\ Chk(Ev.rc # 1 /\ Ev.outlen = 0) /\ UNCHANGED <<phase, par, fed, outs>>
 TReset == IsEvent("Reset") /\ phase' = "idle" /\ par' = <<>> /\ fed' = <<>> /\ outs' = <<>>
-Next == TInit \/ TUpdate \/ TFinish \/ TFinishFailed \/ TFinishRefused \/ TCall \/ TRoundTrip \/ TReset
+Next == TInit \/ TUpdate \/ TFinish \/ TFinishFailed \/ TFinishRefused \/ TCall \/ TRoundTrip \/ TCliRoundTrip \/ TCliTamper \/ TReset
 Spec == Init /\ [][Next]_vars
 
 Accepted == LET d == TLCGet("stats").diameter IN
